@@ -271,6 +271,37 @@ class Recorder:
             rec.emit("on_tempdir", self.name)
 
         self._patch(tempfile.TemporaryDirectory, "__init__", w_td)
+
+        # the live monitor (options.monitor=True) is a detached plotting process: the harness records that it was asked for and
+        # does not start it (no display here; the simulation side of the option is what the checks look at)
+        import tdgl.solver.runner as R
+
+        real_sp = getattr(R, "subprocess", None)
+        if real_sp is not None:
+            class _NoProcess:
+                pid, returncode = -1, 0
+
+                def poll(self):
+                    return 0
+
+                def wait(self, *a, **k):
+                    return 0
+
+                def kill(self):
+                    pass
+
+                terminate = kill
+
+            class _SubprocessShim:
+                def __getattr__(self, name):
+                    return getattr(real_sp, name)
+
+                def Popen(self, cmd, *a, **k):
+                    rec.counts["monitor_spawn_requests"] = rec.counts.get("monitor_spawn_requests", 0) + 1
+                    rec.monitor_cmds = getattr(rec, "monitor_cmds", []) + [list(cmd)]
+                    return _NoProcess()
+
+            self._patch(R, "subprocess", _SubprocessShim())
         return self
 
     def uninstall(self):
